@@ -120,7 +120,13 @@ func ResultType(elemType, src types.Type, indices []Index) types.Type {
 			if !index.HasVal {
 				panic(fmt.Errorf("unable to index into struct type `%v` using gep with non-constant index", e))
 			}
-			e = elm.Fields[index.Val]
+			// The value of an i32 literal is taken modulo 2^32 (`i32 4294967297`
+			// is field 1).
+			field := uint32(index.Val)
+			if uint64(field) >= uint64(len(elm.Fields)) {
+				panic(fmt.Errorf("unable to index into struct type `%v` using gep; field index %d out of range", e, field))
+			}
+			e = elm.Fields[field]
 		default:
 			panic(fmt.Errorf("cannot index into type %T using gep", e))
 		}
